@@ -135,6 +135,8 @@ func main() {
 func sevCase(r *mc.Run, ctx context.Context, id string, end *epb.VMLaunchEndorsement, g *epb.VMGoldenMeasurement, base *cpb.Policy, n uint32, ow, au bool) string {
 	var snapshot *cpb.Policy
 	if base != nil {
+		// every case gets its own copy (cases run in parallel and the code under test may mutate it)
+		base = proto.Clone(base).(*cpb.Policy)
 		snapshot = proto.Clone(base).(*cpb.Policy)
 	}
 	var got *cpb.Policy
@@ -259,6 +261,7 @@ func tdxJobs(r *mc.Run, ctx context.Context, jobs *[]func()) {
 						r.Case(id, func() string {
 							var snapshot *tcpb.Policy
 							if base != nil {
+								base = proto.Clone(base).(*tcpb.Policy)
 								snapshot = proto.Clone(base).(*tcpb.Policy)
 							}
 							var got *tcpb.Policy
